@@ -7,7 +7,8 @@
    (encoder RecBytes, declarative expansion Expand) and the selection function.
    State machine: the BMC holds the concatenated record data and serves it in
    16-byte chunks by list index; the console concatenates chunks until a short
-   one (or index 64), then parses.  Properties C16 (a) and C12 (selection). *)
+   one or the last index the 6-bit list index field can express (3Fh), then
+   parses.  Properties C16 (a) and C12 (selection). *)
 EXTENDS Integers, Sequences, FiniteSets, TLC
 
 \* ------------------------------------------------------------------- records
@@ -65,6 +66,8 @@ SuitesOf(entries) == {<<entries[i].AuthenticationAlgorithm, entries[i].Integrity
 CONSTANTS Universe,      \* set of records the BMC may hold
           MaxRecs,       \* length bound of the record list
           Corruptions,   \* subset of {"none", "trailing", "trunc1", "trunc2", "oemtrunc", "badauth"}
+          LastIndex,     \* largest list index the request can express (3Fh on the wire; smaller in bounded models)
+          G_Bound,       \* stop after the chunk at LastIndex (FALSE: one request more, whose index wraps to 0 on the wire)
           G_ShortStop,   \* stop at the first chunk shorter than 16 bytes
           G_Concat       \* concatenate chunks before parsing (records may straddle chunks)
 
@@ -83,14 +86,15 @@ Corrupt(d, c) == CASE c = "none" -> d
 
 Init == /\ recs \in SeqsUpTo(Universe, MaxRecs) /\ corrupt \in Corruptions
         /\ data = Corrupt(DataOf(recs), corrupt)
+        /\ Len(data) <= 16 * (LastIndex + 1)                 \* all the protocol can address
         /\ idx = 0 /\ acc = <<>> /\ pc = "fetch" /\ nreq = 0 /\ result = PErr
 
 Chunk(i) == SubSeq(data, 16 * i + 1, IF 16 * i + 16 < Len(data) THEN 16 * i + 16 ELSE Len(data))
 Fetch == /\ pc = "fetch"
-         /\ LET c == Chunk(idx) IN
+         /\ LET c == Chunk(idx % (LastIndex + 1)) IN                 \* the index field holds idx modulo its range
             /\ acc' = IF G_Concat THEN acc \o c ELSE c
             /\ nreq' = nreq + 1
-            /\ IF idx = 64 \/ (G_ShortStop /\ Len(c) < 16) \/ (~G_ShortStop /\ c = <<>>)
+            /\ IF (G_Bound /\ idx = LastIndex) \/ (~G_Bound /\ idx = LastIndex + 1) \/ (G_ShortStop /\ Len(c) < 16) \/ (~G_ShortStop /\ c = <<>>)
                THEN pc' = "parse" /\ idx' = idx
                ELSE pc' = "fetch" /\ idx' = idx + 1
          /\ UNCHANGED <<recs, corrupt, data, result>>
@@ -103,7 +107,7 @@ Spec == Init /\ [][Next]_vars /\ WF_vars(Next)
 Done == pc = "done"
 C16_AllRecordsExpandedInOrder == (Done /\ corrupt = "none") => (result.ok /\ result.v = ExpandAll(recs))
 C16_MalformedGivesErrorNotPartial == (Done /\ corrupt # "none") => (~result.ok /\ result.v = <<>>)
-C16_StopsAtShortChunkInclExactMultiple == Done => nreq = (Len(data) \div 16) + 1
+C16_StopsAtShortChunkInclExactMultiple == Done => nreq = IF Len(data) = 16 * (LastIndex + 1) THEN LastIndex + 1 ELSE (Len(data) \div 16) + 1
 C16_Terminates == <>Done
 \* selection: the proposal is the caller's first preference among the advertised suites (exhaustive below)
 =============================================================================
